@@ -1435,3 +1435,61 @@ M("C19", "logmath_add: zero tests only without a table (seed C19-3 core)", "src/
         return logmath_add_exact(lmath, logb_x, logb_y);
     }
 """, "TWIN.symmetry")
+
+# ---- clauses added after the third seeding round ---------------------------------------------
+M("C02", "lextree: filler node keeps its own phone as external context (seed C02-5 core)", "src/fsg_lextree.c", "pnode->ci_ext = silcipid; /* Presents SIL as context to neighbors */", "pnode->ci_ext = ci;", "CTX.external-phone")
+M("C02", "search: grammar word id used as a dictionary index (seed C02-6 core)", "src/fsg_search.c", """        || (dict_is_single_phone(search_module_dict(fsgs),
+                                 dict_wordid(search_module_dict(fsgs),
+                                             fsg_model_word_str(fsgs->fsg, wid))))) {""", """        || dict_is_single_phone(search_module_dict(fsgs), wid)) {""", "ROLE.id-space")
+M("C04", "state align: last phone's end bound lifted after the loop (seed C04-5 core)", "src/state_align_search.c", """            sas->ef[i] = INT_MAX; /* Always active */
+    }
+    return search_module_base(sas);""", """            sas->ef[i] = INT_MAX; /* Always active */
+    }
+    if (sas->n_phones > 0)
+        sas->ef[sas->n_phones - 1] = INT_MAX;
+    return search_module_base(sas);""", "PROV.A5-constraints")
+M("C11", "find_node: fillers match whatever the state (seed C11-5 core)", "src/fsg_search.c", "if ((node->sf == sf) && (node->wid == wid) && (node->node_id == node_id))", "if ((node->sf == sf) && (node->wid == wid) && (fsg_model_is_filler(fsg, wid) || node->node_id == node_id))", "GUARD.L4-nodes")
+M("C11", "find_node: gives up on a match", "src/fsg_search.c", """        if ((node->sf == sf) && (node->wid == wid) && (node->node_id == node_id))
+            break;
+    return node;""", """        if ((node->sf == sf) && (node->wid == wid) && (node->node_id == node_id))
+            break;
+    return node && node->next ? node : NULL;""", "GUARD.L4-nodes")
+M("C11", "find_end_node: candidates restricted to the final state (seed C11-6 core)", "src/fsg_search.c", "        if (node->lef == dag->n_frames - 1 && node->entries) {", "        if (node->lef == dag->n_frames - 1 && node->entries\n            && node->node_id == fsg_model_final_state(fsgs->fsg)) {", "GUARD.L4-nodes")
+M("C12", "traverse: fan-in reset in the counting loop (seed C12-6 core)", "src/ps_lattice.c", """    for (node = dag->nodes; node; node = node->next)
+        node->info.fanin = 0;
+    for (node = dag->nodes; node; node = node->next) {
+        for (x = node->exits; x; x = x->next)
+            (x->link->to->info.fanin)++;
+    }""", """    for (node = dag->nodes; node; node = node->next) {
+        node->info.fanin = 0;
+        for (x = node->exits; x; x = x->next)
+            (x->link->to->info.fanin)++;
+    }""", "TWIN.P4-traversal")
+M("C18", "acmod_score: cached scores reused for a partial senone set (seed C18-6 core)", "src/acmod.c", """    if ((acmod->compallsen)
+        && frame_idx == acmod->senscr_frame) {""", """    if (frame_idx == acmod->senscr_frame) {""", "GUARD.score-cache")
+M("C19", "logmath_init: table entries truncated instead of rounded (seed C19-5 core)", "src/logmath.c", "        int32 k = (int32)(lobyx + 0.5 * (1 << shift)) >> shift; /* Round to shift */\n        uint32 prev = 0;", "        int32 k = (int32)(lobyx) >> shift;\n        uint32 prev = 0;", "TWIN.table-passes")
+M("C19", "benign: rounding term first", "src/logmath.c", "        int32 k = (int32)(lobyx + 0.5 * (1 << shift)) >> shift; /* Round to shift */\n        uint32 prev = 0;", "        int32 k = (int32)(0.5 * (1 << shift) + lobyx) >> shift;\n        uint32 prev = 0;", kind="benign")
+M("C20", "keycmp_case: stops at a NUL byte (seed C20-5 core)", "src/hash_table.c", """    str = entry->key;
+    for (i = 0; (uint32)i < entry->len; i++) {
+        c1 = *(str++);
+        c2 = *(key++);
+        if (c1 != c2)
+            return (c1 - c2);
+    }
+
+    return 0;
+}
+
+/*
+ * Lookup""", """    str = entry->key;
+    (void)c1; (void)c2; (void)i;
+    return strncmp(str, key, entry->len);
+}
+
+/*
+ * Lookup""", "GUARD.len-first")
+M("C14", "json: suffix sized as two bytes", "src/decoder.c", "    maxlen++; /* final } */\n    maxlen++; /* trailing \\n */\n    maxlen++; /* trailing \\0 */", "    maxlen += 2; /* final }, trailing \\n */", "EMIT.E1-two-passes")
+M("C14", "benign: suffix sized in one step", "src/decoder.c", "    maxlen++; /* final } */\n    maxlen++; /* trailing \\n */\n    maxlen++; /* trailing \\0 */", "    maxlen += 3;", kind="benign")
+M("C10", "fsg reader: to-state tested against the wrong bound through a status", "src/fsg_model.c", "            if (endptr == val || j < 0 || j >= fsg->n_state) {", "            if (endptr == val || j < 0) {", "NUM.range")
+M("C10", "dict reader: a word without phones is no longer refused (seed C10-5 core)", "src/dict.c", "        if (nwd == 1) {\n            E_ERROR(\"Line %d: No pronunciation", "        if (nwd < 1) {\n            E_ERROR(\"Line %d: No pronunciation", "NUM.pron-length")
+M("C10", "benign: pronunciation refusal written as a range test", "src/dict.c", "        if (nwd == 1) {\n            E_ERROR(\"Line %d: No pronunciation", "        if (nwd < 2) {\n            E_ERROR(\"Line %d: No pronunciation", kind="benign")
